@@ -51,7 +51,7 @@ static void gen_queues(void) {
 			// target: an earlier non-global, non-main queue (depth limited) or the default root
 			if (i > 0 && g_chance(55, 100)) {
 				int t = (int)g_n((uint32_t)i);
-				if (Q[t].kind != QK_GLOBAL && Q[t].kind != QK_MAIN && Q[t].depth + 1 < G->max_qdepth) n->target = t;
+				if (Q[t].kind != QK_GLOBAL && (Q[t].kind != QK_MAIN || G->main_tree) && Q[t].depth + 1 < G->max_qdepth) n->target = t;
 			}
 			n->inactive = g_chance(G->inactive_pct, 100);
 			if (n->kind == QK_CONC && g_chance(G->width_pct, 100)) n->width = g_range(2, 4);
@@ -88,9 +88,10 @@ static int pick_queue(const gctx *c, bool blocking) {
 	for (int i = 0; i < nq; i++) {
 		if (blocking && c->from_q >= 0) {
 			if (Q[i].kind == QK_GLOBAL) { /* never blocks on others */ }
+			else if (G->main_tree && Q[0].kind == QK_MAIN && Q[i].tree == 0 && Q[c->from_q].tree != 0) { /* main-queue tree: its items never block */ }
 			else if (Q[i].tree <= c->min_tree) continue;
 		}
-		if (blocking && Q[i].kind == QK_MAIN && c->from_q >= 0) continue;
+		if (blocking && Q[i].kind == QK_MAIN && c->from_q >= 0 && !G->main_tree) continue;
 		cand[n++] = i;
 	}
 	if (!n) return -1;
@@ -111,6 +112,7 @@ static void gen_body(qop *op, gctx c) {
 	op->body_arg = op->body == B_YIELD ? g_range(1, 4) : op->body == B_SLEEP ? g_range(1, 300) : 0;
 	if (op->body == B_NEST) {
 		gctx cc = c; cc.parent_item = op->item; cc.from_q = op->q; cc.depth = c.depth + 1; cc.client = -1;
+		if (G->main_tree && Q[0].kind == QK_MAIN && Q[op->q].tree == 0) cc.noblock = 1;   // items of the main queue's tree never block
 		// items reached through a blocking submission keep their submitter's ordering constraint
 		cc.min_tree = Q[op->q].tree;
 		if (op_is_sync(op->kind) && c.min_tree > cc.min_tree) cc.min_tree = c.min_tree;
@@ -169,6 +171,7 @@ static bool gen_one(qop *op, gctx c) {
 			op->body = B_NEST;
 			gctx cc = c; cc.parent_item = op->item; cc.from_q = op->q; cc.depth = c.depth + 1; cc.client = -1;
 			cc.min_tree = Q[op->q].tree; if (c.min_tree > cc.min_tree) cc.min_tree = c.min_tree;
+			if (G->main_tree && Q[0].kind == QK_MAIN && Q[op->q].tree == 0) cc.noblock = 1;
 			gen_ops(&op->child, &op->nchild, g_range(1, 2), cc);
 		}
 		return true;
